@@ -47,6 +47,7 @@ class Ctx:
         self.decision_log: list = []  # (where, cond repr, outcome)
         self._idx = itertools.count()
         self.forall_facts: list = []
+        self.index_guards: dict = {}
         self.events: list = []
 
     # facts ------------------------------------------------------------------------
@@ -71,13 +72,25 @@ class Ctx:
         self.axioms[t.uid] = t
 
     def fresh_index(self, n, prefix="i"):
-        """a fresh generic index 0 <= i < n (bounds are recorded as axioms of the index)"""
+        """a fresh generic index of a sequence of length n.  It lies in [0, n) whenever the sequence
+        is non-empty; nothing is assumed when it is empty (so no obligation becomes vacuous), and
+        every obligation that mentions the index is proved under the guard n > 0."""
+        n = T.lift(n, T.INT)
         i = T.fresh(prefix, T.INT)
-        self.axiom(T.le(0, i))
-        self.axiom(T.lt(i, n))
+        nonempty = T.lt(0, n)
+        self.axiom(T.implies(nonempty, T.and_(T.le(0, i), T.lt(i, n))))
+        if nonempty is not T.TRUE:
+            self.index_guards[i] = nonempty
         for m, cond_at in self.forall_facts:
             self.axiom(T.implies(T.and_(T.le(0, i), T.lt(i, m)), cond_at(i)))
         return i
+
+    def guard_of(self, goal):
+        """conjunction of the non-emptiness guards of the generic indices occurring in goal"""
+        if not self.index_guards:
+            return T.TRUE
+        gs = [g for v, g in self.index_guards.items() if any(x is v for x in T.subterms([goal]))]
+        return T.and_(*gs) if gs else T.TRUE
 
     def assume_forall(self, n, cond_at):
         """assumed fact  forall 0 <= i < n. cond_at(i): instantiated at 0, n-1 and at every
@@ -93,6 +106,10 @@ class Ctx:
     # obligations ------------------------------------------------------------------
     def oblige(self, kind, label, goal, assume_after=True, assume_domains=True, meta=None):
         goal = T.lift(goal)
+        if goal is not T.TRUE and self.index_guards:
+            g = self.guard_of(goal)
+            if g is not T.TRUE:
+                goal = T.implies(g, goal)
         ob = Obligation(kind, label, goal, len(self.hyps), self.loc(), assume_domains, meta)
         self.obligations.append(ob)
         if assume_after and goal is not T.TRUE:
